@@ -332,11 +332,15 @@ impl<W> AsRef<[W]> for PtrSlice<W> {
     }
 }
 
+/// the byte sink under the word adapter: like a pipe or a socket it takes only part of what it is
+/// offered (1..=5 bytes per call, by turns), which std::io::Write allows
 pub struct SharedSink(pub Log);
 impl std::io::Write for SharedSink {
     fn write(&mut self, buf: &[u8]) -> std::io::Result<usize> {
-        self.0.borrow_mut().extend_from_slice(buf);
-        Ok(buf.len())
+        let mut log = self.0.borrow_mut();
+        let k = std::cmp::min(buf.len(), 1 + log.len() % 5);
+        log.extend_from_slice(&buf[..k]);
+        Ok(k)
     }
     fn flush(&mut self) -> std::io::Result<()> {
         Ok(())
